@@ -90,6 +90,36 @@ def load_findings():
     return json.load(open(p))
 
 
+def search_failing_input(mod, prop, seed, tier, run_labels, dis_labels, known, findings_mod, Machine):
+    """-> ((failure, seed, tier) | None, info).  Oracle-only runs of further cases on the implementation."""
+    budget = float(os.environ.get("GT_SEARCH_BUDGET_S", "240" if tier == "quick" else "900"))
+    t0 = time.time()
+    s_seed, s_tier = (seed, "thorough") if tier == "quick" else (seed + 1, "thorough")
+    try:
+        cands = [c for c in mod.cases(s_seed, s_tier) if c.label not in run_labels or s_seed != seed]
+    except Exception:
+        cands = []
+    def related(label):
+        parts = label.split("/")
+        return max((sum(1 for a, b in zip(parts, d.split("/")) if a == b) for d in dis_labels), default=0)
+    cands.sort(key=lambda c: -related(c.label))
+    tried = 0
+    for c in cands:
+        if time.time() - t0 > budget:
+            break
+        tried += 1
+        m = Machine(c.label)
+        try:
+            fs = c.fn(m) or []
+        except Exception:
+            continue
+        for f in fs:
+            f["case"] = c.label
+            if findings_mod.match(f, known) is None:
+                return (f, s_seed, s_tier), dict(tried=tried, seconds=round(time.time() - t0, 1))
+    return None, dict(tried=tried, candidates=len(cands), seconds=round(time.time() - t0, 1), seed=s_seed, tier=s_tier)
+
+
 def run_property(prop, tier, seed, replay=None, only_case=None):
     import numpy as np
     t0 = time.time()
@@ -203,7 +233,7 @@ def run_property(prop, tier, seed, replay=None, only_case=None):
     def write_replay(kind, payload):
         h = hashlib.sha1(json.dumps(payload, sort_keys=True, default=str).encode()).hexdigest()[:10]
         path = os.path.join(VERIF, "work", "replays", f"{prop}_{kind}_{h}.json")
-        payload = dict(payload, property=prop, seed=seed, tier=tier)
+        payload = dict(dict(property=prop, seed=seed, tier=tier), **payload)     # a search hit carries its own seed / tier
         json.dump(payload, open(path, "w"), indent=1, default=str)
         return path
 
@@ -241,11 +271,22 @@ def run_property(prop, tier, seed, replay=None, only_case=None):
         path = write_replay("fail", dict(case=f["case"], failure=f))
         printed.append(f"VIOLATION property={prop} replay={path}")
         exit_code = 1
+    search_info = None
     if orphan_dis:
-        # the correspondence no longer checks and the oracle found nothing on those cases
+        # the correspondence no longer checks and the oracle found nothing on those cases: search the implementation for a
+        # concrete failing input on the deeper case family (thorough-tier cases not run yet; a further seed when already
+        # thorough), cases related to the disagreeing ones first, within a time budget
         d0 = orphan_dis[0]
-        path = write_replay("corr", dict(case=d0["case"], broken="correspondence", disagreements=orphan_dis[:20]))
-        printed.append(f"VIOLATION property={prop} replay={path} no-failing-input-found")
+        hit, search_info = search_failing_input(mod, prop, seed, tier, {c.label for c, _ in machines},
+                                                {d["case"] for d in orphan_dis}, known, findings_mod, Machine)
+        if hit is not None:
+            f, s_seed, s_tier = hit
+            path = write_replay("fail", dict(case=f["case"], failure=f, seed=s_seed, tier=s_tier, found_by="search after broken correspondence",
+                                             broken="correspondence", disagreements=orphan_dis[:20]))
+            printed.append(f"VIOLATION property={prop} replay={path}")
+        else:
+            path = write_replay("corr", dict(case=d0["case"], broken="correspondence", disagreements=orphan_dis[:20], search=search_info))
+            printed.append(f"VIOLATION property={prop} replay={path} no-failing-input-found")
         exit_code = 1
     if build_broken:
         # obligations over the regenerated class table no longer check; did the oracle find an input?
